@@ -472,17 +472,42 @@ func checkC16(c *Ctx, r *Report) {
 	r.check("C16.SORT", "(*typeList).add: the list is re-sorted after every insertion", posOf(sortCall), okSort, "without the sort the table order depends on the order of definitions and loads")
 	// the comparison uses Rank and Name
 	usesRank, usesName := false, false
-	for _, an := range add.AnonFuncs {
-		for _, ci := range callsIn(an) {
-			if ci.Common().IsInvoke() {
-				switch ci.Common().Method.Name() {
-				case "Rank":
-					usesRank = true
-				case "Name":
-					usesName = true
+	// the comparator: the function literals of add, or the function value handed to the sort (a method value,
+	// a named function), followed into the package functions it calls
+	var cmpFns []*ssa.Function
+	cmpFns = append(cmpFns, add.AnonFuncs...)
+	if sortCall != nil && len(sortCall.Common().Args) > 1 {
+		switch t := sortCall.Common().Args[1].(type) {
+		case *ssa.MakeClosure:
+			if f, ok := t.Fn.(*ssa.Function); ok {
+				cmpFns = append(cmpFns, f)
+			}
+		case *ssa.Function:
+			cmpFns = append(cmpFns, t)
+		}
+	}
+	seenCmp := map[*ssa.Function]bool{}
+	for depth := 0; depth < 4 && len(cmpFns) > 0; depth++ {
+		var next []*ssa.Function
+		for _, an := range cmpFns {
+			if seenCmp[an] {
+				continue
+			}
+			seenCmp[an] = true
+			for _, ci := range callsIn(an) {
+				if ci.Common().IsInvoke() {
+					switch ci.Common().Method.Name() {
+					case "Rank":
+						usesRank = true
+					case "Name":
+						usesName = true
+					}
+				} else if cal := ci.Common().StaticCallee(); cal != nil && (c.inPkg(cal) || cal.Synthetic != "") && len(cal.Blocks) > 0 {
+					next = append(next, cal)
 				}
 			}
 		}
+		cmpFns = next
 	}
 	r.check("C16.SORT", "(*typeList).add: the order is (rank, name)", add.Pos(), usesRank && usesName, "the comparison must be a total order independent of insertion order")
 	// ITER: Extend implementations
@@ -561,6 +586,7 @@ func checkC16(c *Ctx, r *Report) {
 	c16ExtPure(c, r)
 	c16RefPure(c, r)
 	c16ScanPure(c, r)
+	c16Implied(c, r)
 	importRulesFrom(c, r, "C17", func(c *Ctx, sub *Report) { c17Roots(c, sub) }, "C16.ROOTS", "root operation fields are added to the schema object only while an undeclared schema is being built (C17.ROOTS): a derived schema that keeps picking up Query / Mutation / Subscription types from later loads, with a flag that survives an explicit declaration, makes the operation types depend on how the definitions were split over loads", "C17.ROOTS")
 	importRules(c, r, "C13", "C16.VALALL", "after every load the whole type table and the whole directive table are validated, unfiltered (C13.WALK): validating only what a load defines or extends accepts a split arrangement (`extend interface` arriving after its implementers) that the single document refuses", "C13.WALK")
 }
@@ -1291,4 +1317,80 @@ func c16ScanPure(c *Ctx, r *Report) {
 	r.check("C16.SCANPURE", "the SDL scanner coerces nothing through the types it binds", pos, len(bad) == 0,
 		"a coercer is invoked at scan time in "+strings.Join(bad, ", ")+": the bound type is a definition only when it arrived in an earlier load and a placeholder otherwise, so the value stored differs between one document and two loads")
 	r.floor("C16.SCANPURE", "functions reachable from the SDL scanner", n, 20)
+}
+
+// C16.IMPLIED: a root without a schema block gets its schema from the types named Query, Mutation and
+// Subscription. That derivation is made by a function outside the reader that stores a Schema made there
+// into Root.schema. If it can only run while Root.schema is nil, the schema derived by the first load is
+// final: a Query type that arrives in a later load is not a root operation type, while the same definitions
+// in one document make it one. The rule: the store is reachable on a path on which Root.schema is not nil
+// (an implied schema left by an earlier load); that a declared schema cannot reach it is C17.ROOTS.
+func c16Implied(c *Ctx, r *Report) {
+	r.rule("C16.IMPLIED", "the function that derives the schema of a root without a schema block from the Query / Mutation / Subscription types can run again when an earlier load left a derived schema: the store of the derived Schema into Root.schema is reachable with Root.schema != nil")
+	n := 0
+	for _, fn := range c.allFns {
+		if isScannerFn(c, fn) {
+			continue
+		}
+		for _, b := range fn.Blocks {
+			for _, in := range b.Instrs {
+				st, ok := in.(*ssa.Store)
+				if !ok {
+					continue
+				}
+				fa, ok := st.Addr.(*ssa.FieldAddr)
+				if !ok {
+					continue
+				}
+				if o, f := fieldOwner(fa.X.Type(), fa.Field); o != "Root" || f != "schema" {
+					continue
+				}
+				al := rootAlloc(st.Val)
+				if al == nil || derefNamed(al.Type()) != "Schema" {
+					continue
+				}
+				n++
+				r.fnSeen(fnName(fn))
+				// cut the edges on which Root.schema is known to be nil
+				cut := map[[2]*ssa.BasicBlock]bool{}
+				for _, bb := range fn.Blocks {
+					if len(bb.Instrs) == 0 {
+						continue
+					}
+					ifi, ok := bb.Instrs[len(bb.Instrs)-1].(*ssa.If)
+					if !ok {
+						continue
+					}
+					for i, succ := range bb.Succs {
+						g := normGuard(guard{ifi.Cond, i == 0, ifi})
+						if x, eq, isN := nilCmp(g.cond); isN && eq == g.val {
+							if _, o, f, ok := loadOfField(x); ok && o == "Root" && f == "schema" {
+								cut[[2]*ssa.BasicBlock{bb, succ}] = true
+							}
+						}
+					}
+				}
+				seen := map[*ssa.BasicBlock]bool{fn.Blocks[0]: true}
+				work := []*ssa.BasicBlock{fn.Blocks[0]}
+				reach := false
+				for len(work) > 0 {
+					x := work[len(work)-1]
+					work = work[:len(work)-1]
+					if x == b {
+						reach = true
+						break
+					}
+					for _, s := range x.Succs {
+						if !cut[[2]*ssa.BasicBlock{x, s}] && !seen[s] {
+							seen[s] = true
+							work = append(work, s)
+						}
+					}
+				}
+				r.check("C16.IMPLIED", fmt.Sprintf("%s: the derived schema is made again when an earlier load left one", fnName(fn)), st.Pos(), reach,
+					"the schema is derived only while Root.schema is nil: after a first load without a Query type, a Query type defined in a later load is not a root operation type, although the same definitions in one document make it one")
+			}
+		}
+	}
+	r.floor("C16.IMPLIED", "derivations of an undeclared schema outside the reader", n, 1)
 }
